@@ -38,7 +38,8 @@ Definition decode_config (x : sx) : option config :=
   | _ => None
   end.
 
-(* find_system table: rows (key value kind id), kind 0 = None, 1 = id, 2 = raises; absent = None *)
+(* find_system table: rows (key value kind id), kind 0 = None, 1 = id, 2 = raises an Exception subclass,
+   3 = raises a BaseException subclass; absent = None *)
 Definition fs_row := (str * str * N * str)%type.
 Definition decode_fs_row (x : sx) : option fs_row :=
   match x with
@@ -51,7 +52,7 @@ Fixpoint table_find_system (t : list fs_row) (k v : str) : fsres :=
   | [] => FNone
   | (k', v', kind, i) :: r =>
       if eqb_str k k' && eqb_str v v'
-      then (if kind =? 1 then FFound i else if kind =? 2 then FRaise else FNone)
+      then (if kind =? 1 then FFound i else if kind =? 2 then FRaise else if kind =? 3 then FRaiseBase else FNone)
       else table_find_system r k v
   end.
 
@@ -59,10 +60,11 @@ Fixpoint table_find_system (t : list fs_row) (k v : str) : fsres :=
    data.get('tag') = None, observed as "?None"); otherwise returns a tree whose tag is "data-of-" ++ id *)
 Definition DATA_OF : str := bytes_of_string "data-of-".
 Definition DATA_EMPTY : str := bytes_of_string "?None".
-Definition table_get_data (raising empties : list str) (i : str) : option str :=
-  if existsb (eqb_str i) raising then None
-  else if existsb (eqb_str i) empties then Some DATA_EMPTY
-  else Some (DATA_OF ++ i).
+Definition table_get_data (raising raising_base empties : list str) (i : str) : gdres :=
+  if existsb (eqb_str i) raising then GRaise
+  else if existsb (eqb_str i) raising_base then GRaiseBase
+  else if existsb (eqb_str i) empties then GOk DATA_EMPTY
+  else GOk (DATA_OF ++ i).
 
 Definition sxCall (c : call) : sx :=
   match c with
